@@ -30,7 +30,9 @@ def scoped_all(chk, d, ents):
                 r = d.ask(f"(scoped {c.ast_sexp})")
                 chk.programs += 1
                 chk.case("scoped", f"{c.name}:{tag}", sample={"kernel": c.name, "reply": r} if len(chk.samples) < 2 else None)
-                if r[0] != "ok":
+                if r[0] != "ok" and not any(t in ("undeclared", "redeclared") for t in r):
+                    chk.disagree("scoping checker could not be applied to a generated kernel", {"kernel": c.name, "variant": tag, "reply": r})
+                elif r[0] != "ok":
                     chk.violation(f"c19:scope:{r[1] if len(r) > 1 else '?'}:{e.name}",
                                   f"generated kernel violates C block scoping: {' '.join(r)}", {"kernel": c.name, "variant": tag, "reply": r})
                 else:
